@@ -148,6 +148,22 @@ def judge_pause(data: bytes, cfg: dict, i: int):
     return out, items, st
 
 
+def judge_iter(data: bytes, cfg: dict):
+    """The reader is ITERATED (for raw, parsed in reader): when the iteration stops, nothing may be left unread."""
+    r = run_reader(data, cfg, use_iter=True)
+    out = []
+    pos = 0
+    for raw, _ in r.items:
+        i = data.find(raw, pos)
+        if i < 0:
+            out.append(("raw_not_a_slice_in_order|iterated", f"raw={raw.hex()[:60]}"))
+            break
+        pos = i + len(raw)
+    if r.raised is None and not r.horizon and r.tell is not None and r.tell != len(data):
+        out.append(("iteration_stopped_with_unread_bytes", f"tell={r.tell} len={len(data)} items={len(r.items)}"))
+    return out, r
+
+
 SOCK_UNIT = ("Uinf", "Remb", "N1", "Uack", "UinfBad", "R1")
 
 
@@ -162,6 +178,8 @@ def replay_case(case):
         a = engine.Acc()
         eval_block(("sessions", case["a"]), a)
         return [(k, v[2]) for k, v in a.viol.items()]
+    if case.get("iter"):
+        return judge_iter(bytes.fromhex(case["stream"]), case["cfg"])[0]
     if "pause" in case:
         return judge_pause(bytes.fromhex(case["stream"]), case["cfg"], case["pause"])[0]
     if case.get("stream_kind"):
@@ -207,6 +225,30 @@ def eval_block(block, acc):
                             acc.violation("raw_not_a_slice|second_socket_session", {"kind": "sessions", "a": a_tok, "b": b_tok, "chunk": chunk, "bufsize": bufsize}, f"raw={raw.hex()[:40]} not in this session's data")
                             break
                         pos = i + len(raw)
+        return
+    elif kind == "variants":
+        # frames of every message whose definition is selected by payload content or LENGTH, at lengths beyond the
+        # longest variant, followed by two good frames; the reader is iterated
+        from mc import catalogue as C
+        from mc.refmodel import core as ref
+        cids = sorted({v[0] for v in list(C.VARIANT_ROUTES.values()) + list(C.ALIAS_ROUTES.values())})
+        tail = streams.seq_bytes(("Uack", "N1"))
+        for cid in cids[block[1]::block[2]]:
+            ents = [e for e in C.entries() if e.clsid == cid and e.routed]
+            lens = sorted({len(C.build_payload(e, lambda x: 1, 1) or b"") for e in ents})
+            for mode in sorted({e.mode for e in ents}) + [3]:
+                for n in sorted({l + d for l in lens for d in (0, 1, 2, 4, 16)}):
+                    for disc in (0, 1, 0xFF):
+                        pl = bytes([disc]) * min(n, 2) + bytes(max(n - 2, 0))
+                        data = ref.frame(cid[0], cid[1], pl) + tail
+                        for q in (0, 1):
+                            cfg = dict(quitonerror=q, handler=bool(q), msgmode=mode)
+                            out, r = judge_iter(data, cfg)
+                            acc.evaluations += 1
+                            acc.transitions += len(r.items) + 1
+                            acc.outcomes[(len(r.items), ("variants",))] += 1
+                            for key, detail in out:
+                                acc.violation(key, {"iter": True, "stream": data.hex(), "cfg": cfg}, detail)
         return
     elif kind == "pause":
         first = block[1]
@@ -335,6 +377,7 @@ def run_tier(tier, t0):
     blocks += [("sock", f) for f in streams.FRAME_TOKENS]
     blocks += [("kinds", f) for f in streams.FRAME_TOKENS]
     blocks += [("pause", f) for f in streams.FRAME_TOKENS]
+    blocks += [("variants", i, 8) for i in range(8)]
     blocks += [("socklong", i) for i in range(16)]
     acc = engine.sweep(blocks, eval_block)
     engine.finish(
@@ -350,6 +393,7 @@ def run_tier(tier, t0):
             "io.BytesIO models the underlying stream; tell()==len(S) means no data left",
             "pynmeagps.NMEA_HDR defines the NMEA preambles",
             "an exception or livelock ends the run and is judged by C08, not here",
+            "variant ring: frames of every message whose definition depends on payload content or length, at every variant's nominal length +0,1,2,4,16 bytes x discriminator bytes 00/01/ff x its modes and SETPOLL, followed by two good frames; the reader is iterated and must not stop with bytes unread",
             "pause ring (one deviation): for token sequences of <= 2, the i-th stream call finds the stream momentarily empty (answered b'' although more data follows), for every i; the caller keeps calling read(): everything must still be consumed, in order, and end-of-stream must not be reported more than 3 times while data is available",
             "stream-kind ring: token sequences of <= 2 through a BufferedReader, a pipe-like stream and a read/readline-only object",
             "socket ring: token sequences of <= 2 through fixed recv chunks 1,3,7,64 x bufsize 4,8,16,4096; a > 8 KiB stream at every alignment to the default 4096-byte buffer (slice clauses only; item equality with a file stream is C10's job)",
